@@ -130,7 +130,13 @@ func genLoopOp(h *vh.H, i int) string {
 		mode = "wire"
 	}
 	var src string
-	if i%12 == 0 {
+	if w := loopWitnesses(); i < len(w) {
+		_, b, err := wireRoundTrip(w[i])
+		if err != nil {
+			return ""
+		}
+		src = "fds:" + vh.Hex(b)
+	} else if i%12 == 0 {
 		src = "repo:" + repoSources[(i/12)%len(repoSources)]
 	} else {
 		fds := genFileSet(h, false)
